@@ -164,7 +164,11 @@ func (g *gen) program() []call {
 	sticky := c.Chance(0.6) // change only part of the style between draws: exercises the caches
 	for i := 0; i < n; i++ {
 		if i == 0 || !sticky || c.Chance(0.5) {
-			ctx.SetFill(g.paint())
+			if c.Chance(0.2) {
+				ctx.SetFill(canvas.Paint{}) // stroke-only draws
+			} else {
+				ctx.SetFill(g.paint())
+			}
 		}
 		if i == 0 || !sticky || c.Chance(0.5) {
 			if c.Chance(0.25) {
@@ -509,8 +513,8 @@ func replayPDF(calls []call) *replay {
 		if cl.kind == kPage {
 			rp.pages = append(rp.pages, snapPage(r))
 			page++
-			r.NewPage(pageW, pageH)
-			rp.panics = append(rp.panics, "")
+			msg := hc.Try(func() { r.NewPage(pageW, pageH) }) // writes the finished page: may panic on what it contains
+			rp.panics = append(rp.panics, msg)
 			rp.segs = append(rp.segs, append([]byte{}, pdf.VerifC12Content(r)...)) // the new page's initial cm
 			rp.pageOf = append(rp.pageOf, page)
 			rp.cache = append(rp.cache, pdf.VerifC12Cache(r))
@@ -567,6 +571,118 @@ func replaySVG(calls []call) *replay {
 	r.Close()
 	rp.all = append([]byte{}, buf.Bytes()...)
 	return rp
+}
+
+// verdictLine: `PDFV <program as in the PDF line> OBS <pages> <calls> <first page prefix>`.
+func verdictLine(calls []call, grads []canvas.Gradient, rp *replay) (string, bool) {
+	var sb strings.Builder
+	sb.WriteString(progLine("PDFV", calls, grads, pdf.VerifC12Dec))
+	fmt.Fprintf(&sb, " OBS %d", len(rp.pages))
+	for _, pg := range rp.pages {
+		names := make([]string, 0, len(pg.ext))
+		for n := range pg.ext {
+			names = append(names, n)
+		}
+		sort.Strings(names)
+		fmt.Fprintf(&sb, " %d", len(names))
+		for _, n := range names {
+			fmt.Fprintf(&sb, " %s %s %s", n, pdf.VerifC12Dec(pg.ext[n][0]), pdf.VerifC12Dec(pg.ext[n][1]))
+		}
+		fmt.Fprintf(&sb, " %d", len(pg.patterns))
+		for _, p := range pg.patterns {
+			sb.WriteString(" " + p.Name)
+		}
+		fmt.Fprintf(&sb, " %d", len(pg.xobjects))
+		for _, x := range pg.xobjects {
+			sb.WriteString(" " + x)
+		}
+	}
+	fmt.Fprintf(&sb, " %d", len(rp.segs))
+	emit := func(b []byte) bool {
+		toks, err := tokenisePDF(b)
+		if err != nil {
+			return false
+		}
+		fmt.Fprintf(&sb, " %d", len(toks))
+		for _, t := range toks {
+			sb.WriteString(" " + t)
+		}
+		return true
+	}
+	for i, seg := range rp.segs {
+		if rp.panics[i] != "" || !emit(seg) {
+			return "", false
+		}
+	}
+	if !emit(rp.prefix) {
+		return "", false
+	}
+	return sb.String(), true
+}
+
+// countBranches: which branch of the modelled RenderPath functions a draw takes (input distribution).
+func countBranches(c *hc.Ctx, cl call) {
+	if cl.kind != kDraw {
+		return
+	}
+	s := cl.style
+	hf, hs := s.HasFill(), s.HasStroke()
+	jok, _, _ := joinExpressible("pdf", s.StrokeJoiner)
+	native := jok && similarity(cl.m) == simYes
+	b := "nothing"
+	switch {
+	case hf && !hs:
+		b = "fill-only"
+	case hs && native && !hf:
+		b = "stroke-only-native"
+	case hs && native && hf && s.Fill.IsColor() && s.Stroke.IsColor() && s.Fill.Color.A == s.Stroke.Color.A:
+		b = "fill+stroke-one-operator"
+	case hs && native && hf:
+		b = "fill-then-stroke"
+	case hs && hf:
+		b = "fill+outline"
+	case hs:
+		b = "outline-only"
+	}
+	c.Count("branch:" + b)
+	if hs {
+		c.Count("join:" + strings.SplitN(joinTok(s.StrokeJoiner), ":", 2)[0] + map[bool]string{true: ":expressible", false: ":fallback"}[jok])
+		c.Count(fmt.Sprintf("cap:%d", capCode(s.StrokeCapper)))
+		switch {
+		case len(s.Dashes) == 0 && s.DashOffset == 0:
+			c.Count("dash:solid")
+		case len(s.Dashes) == 0:
+			c.Count("dash:offset-without-pattern")
+		case len(s.Dashes)%2 == 1 && s.DashOffset < 0:
+			c.Count("dash:odd+negative-offset")
+		case len(s.Dashes)%2 == 1:
+			c.Count("dash:odd")
+		case s.DashOffset < 0:
+			c.Count("dash:even+negative-offset")
+		default:
+			c.Count("dash:even")
+		}
+	}
+	for _, p := range []canvas.Paint{s.Fill, s.Stroke} {
+		switch {
+		case p.IsGradient():
+			c.Count("paint:gradient")
+		case p.Color.A == 0:
+			c.Count("paint:none")
+		case p.Color.A == 255:
+			c.Count("paint:opaque")
+		default:
+			c.Count("paint:semi-transparent")
+		}
+	}
+	if s.FillRule == canvas.EvenOdd {
+		c.Count("rule:evenodd")
+	}
+	if lastIsClose(cl.path) {
+		c.Count("path:closed")
+	} else {
+		c.Count("path:open")
+	}
 }
 
 func timed(f func() *replay) *replay {
@@ -628,6 +744,9 @@ func run(c *hc.Ctx) {
 			continue
 		}
 		c.Count(fmt.Sprintf("draws:%02d", len(calls)))
+		for _, cl := range calls {
+			countBranches(c, cl)
+		}
 		// a back-end that does not return is a failure with this program as input; the run ends there (the
 		// spinning goroutine cannot be stopped, the process exits after the report is written)
 		var draws []call // PostScript and SVG: path draws only (one page; their image embedding is not modelled)
@@ -649,6 +768,12 @@ func run(c *hc.Ctx) {
 			return
 		}
 		c.Case(progLine("PDF", calls, g.grads, pdf.VerifC12Dec), "=", joinSegs(rp, tokenisePDF))
+		// verdict in Lean: the real token text + the pages' resources; the Lean PDF interpreter and the model's
+		// reference decide (colour, alpha, rule, stroke parameters, order, resource resolution; not geometry)
+		if v, ok := verdictLine(calls, g.grads, rp); ok {
+			c.Case(v, "!", "pdf:lean-verdict")
+			c.Count("lean-verdict-lines")
+		}
 		c.Case(progLine("PS", draws, g.grads, ps.VerifC12Dec), "=", joinSegs(rs, tokenisePS))
 		c.Case(progLine("SVG", draws, g.grads, svg.VerifC12Dec), "=", joinSegs(rv, tokeniseSVG))
 		if it < 2 {
